@@ -737,8 +737,10 @@ class MiniEval:
                 raise _Ret(self.ev(st.value) if st.value is not None else None)
             if isinstance(st, ast.If):
                 self.block(st.body if self.ev(st.test) else st.orelse)
-            elif isinstance(st, ast.Assign) and len(st.targets) == 1:
-                self.assign(st.targets[0], self.ev(st.value))
+            elif isinstance(st, ast.Assign):
+                val_ = self.ev(st.value)
+                for tg_ in st.targets:          # a = b = value: evaluated once, stored left to right
+                    self.assign(tg_, val_)
             elif is_logging_stmt(st):
                 continue
             elif isinstance(st, ast.Expr) and isinstance(st.value, ast.Constant):
